@@ -10,6 +10,7 @@ import (
 	"fmt"
 	"net/http"
 	"strings"
+	"sync"
 	"sync/atomic"
 	"testing"
 
@@ -62,6 +63,18 @@ type logset struct {
 	marbl     *marbl.Modifier
 	text      *martianlog.Logger
 	textCalls int64
+	recMu     sync.Mutex
+	records   []string // what the text logger emitted, in order
+}
+
+// lastRecord is the latest record of the text logger.
+func (ls *logset) lastRecord() string {
+	ls.recMu.Lock()
+	defer ls.recMu.Unlock()
+	if len(ls.records) == 0 {
+		return ""
+	}
+	return ls.records[len(ls.records)-1]
 }
 
 func newLogset(post, body HarOpt, headersOnly, decode bool) *logset {
@@ -70,7 +83,12 @@ func newLogset(post, body HarOpt, headersOnly, decode bool) *logset {
 	ls.marbl = marbl.NewModifier(ls.mw)
 	ls.text.SetHeadersOnly(headersOnly)
 	ls.text.SetDecode(decode)
-	ls.text.SetLogFunc(func(string) { atomic.AddInt64(&ls.textCalls, 1) })
+	ls.text.SetLogFunc(func(line string) {
+		ls.recMu.Lock()
+		ls.records = append(ls.records, line)
+		ls.recMu.Unlock()
+		atomic.AddInt64(&ls.textCalls, 1)
+	})
 	return ls
 }
 
@@ -154,11 +172,11 @@ func seqRound(sc SeqCase) (v kit.Verdict) {
 	for i := range sc.Msgs {
 		s := &seqMsg{c: sc.single(i), m: msggen.Build(sc.Msgs[i])}
 		var err error
-		if s.ctl, err = parse(s.m, false); err != nil {
+		if s.ctl, err = parse(s.m, false, ""); err != nil {
 			return kit.Failf("C15/harness/generated-message-unparseable", "net/http cannot parse generated message %d: %v\n%s", i, err, head(s.m.Wire))
 		}
 		defer s.ctl.remove()
-		if s.sub, err = parse(s.m, false); err != nil {
+		if s.sub, err = parse(s.m, false, ""); err != nil {
 			return kit.Failf("C15/harness/generated-message-unparseable", "second parse of message %d: %v", i, err)
 		}
 		defer s.sub.remove()
@@ -193,6 +211,10 @@ func seqRound(sc SeqCase) (v kit.Verdict) {
 				before := ls.count(name)
 				if err := ls.applyMsg(name, s.sub); err != nil {
 					kit.Note("sequence", "a logger returned an error on some generated message (the forwarded bytes are still compared)")
+				}
+				if name == "text" && ls.count(name) == before+1 {
+					// the record just emitted must be this message
+					s.v = append(s.v, verifyTextRecord(s.c, s.m, s.sub, ls.lastRecord())...)
 				}
 				// (the marbl stream writes its frames on its own goroutine: it is
 				// judged at the end of the round by the IDs in the frames)
@@ -291,7 +313,7 @@ func seqRound(sc SeqCase) (v kit.Verdict) {
 			v.Addf(seqSig(sc, k, f.Sig, s.later), "%s\n(message %d of a sequence of %d through one logger; the same message alone passes)", f.Msg, i, n)
 		}
 		for _, f := range alone {
-			if k := kind(f.Sig); k == "C15/forward" || k == "C15/snapshot" {
+			if k := kind(f.Sig); k == "C15/forward" || k == "C15/snapshot" || k == "C15/text-log" {
 				v = append(v, f)
 			}
 		}
@@ -311,6 +333,11 @@ func kind(sig string) string {
 // was followed by another one before it was forwarded, and what changed.
 func seqSig(sc SeqCase, k, sig string, later bool) string {
 	class := sig[strings.LastIndex(sig, "/")+1:]
+	if k == "C15/text-log" {
+		// the record emitted for this message is wrong only after other
+		// messages passed the same logger
+		return fmt.Sprintf("C15/sequence/%s/text-record-%s-after-earlier-message", sc.Logger, class)
+	}
 	what := "exchange"
 	if k == "C15/snapshot" {
 		what = "snapshot"
@@ -352,6 +379,23 @@ func genSeq(t *rapid.T) SeqCase {
 		}
 		sc.Skip = append(sc.Skip, sc.Logger != "snapshot" && rapid.IntRange(0, 5).Draw(t, "skip") == 0)
 		sc.Other = append(sc.Other, rapid.IntRange(0, 2).Draw(t, "other_goroutine") == 0)
+	}
+	// a logger that carries state from one message to the next shows it when
+	// the framing changes within one direction: chunked first, sized afterwards
+	if rapid.IntRange(0, 2).Draw(t, "mix_framings") == 0 {
+		dir := sc.Msgs[0].Response
+		first := true
+		for i := range sc.Msgs {
+			m := &sc.Msgs[i]
+			if m.Response != dir || m.Framing == "none" || m.Proto10 {
+				continue
+			}
+			if first {
+				m.Framing, first = "chunked", false
+			} else if m.Framing == "chunked" {
+				m.Framing, m.Trailers, m.TrailersUnannounced, m.Chunks = "cl", nil, false, nil
+			}
+		}
 	}
 	if !sc.Pipeline {
 		idx := make([]int, n)
@@ -412,6 +456,21 @@ func seqClasses(sc SeqCase) []string {
 			break
 		}
 	}
+	for _, dir := range []bool{false, true} {
+		chunked := false
+		for _, m := range sc.Msgs {
+			if m.Response != dir {
+				continue
+			}
+			if chunked && (m.Framing == "cl" || m.Framing == "close") {
+				cl = append(cl, "chunked-then-sized-same-direction")
+				chunked = false
+			}
+			if m.Framing == "chunked" {
+				chunked = true
+			}
+		}
+	}
 	bodies, smaller, larger := seqSizes(sc)
 	if bodies >= 2 {
 		cl = append(cl, "two-bodies")
@@ -427,12 +486,12 @@ func seqClasses(sc SeqCase) []string {
 
 var propSequence = &kit.Prop[SeqCase]{
 	ID: "C15", Name: "sequence",
-	Rule: "2..4 generated messages (requests and responses, bodies up to 70 kB of different sizes) pass the SAME logger instance(s) (HAR, marbl, text logger, snapshots, or all three stacked), some logged on another goroutine, before they are forwarded - either all logged first and forwarded in a drawn order, or pipelined (message i forwarded after message i+1 was logged); each forwarded message is compared with its unlogged twin, each snapshot re-parsed, skip-logging judged per message; every sequence is repeated 3 times; non-trivial = at least two messages with a body",
+	Rule: "2..4 generated messages (requests and responses, bodies up to 70 kB of different sizes) pass the SAME logger instance(s) (HAR, marbl, text logger, snapshots, or all three stacked), some logged on another goroutine, before they are forwarded - either all logged first and forwarded in a drawn order, or pipelined (message i forwarded after message i+1 was logged); each forwarded message is compared with its unlogged twin, each snapshot and each record the text logger emits re-parsed against its own message (framings mixed within a direction: chunked first, sized later), skip-logging judged per message; every sequence is repeated 3 times; non-trivial = at least two messages with a body",
 	Gen:  genSeq, Run: runSeq,
 	NonTrivial: func(sc SeqCase) bool { b, _, _ := seqSizes(sc); return b >= 2 },
 	Classes:    seqClasses,
 	Gates: map[string]float64{"nontrivial": 0.5, "later-smaller": 0.25, "later-larger": 0.25, "other-goroutine": 0.3, "pipeline": 0.3, "batch": 0.3,
-		"logger-har": 0.15, "logger-text": 0.15, "logger-snapshot": 0.15, "logger-stack": 0.05},
+		"logger-har": 0.15, "logger-text": 0.15, "logger-snapshot": 0.15, "logger-stack": 0.05, "chunked-then-sized-same-direction": 0.15},
 }
 
 func TestSequence(t *testing.T) {
